@@ -1,9 +1,9 @@
 import LyModel.Iff.LemmasRange
 /-!
 Loop invariant of the part parser of `lys_compile_type_range` once `|` requires a started part (fixes/F30.diff) and a new
-part requires the previous one to be closed (fixes/F51.diff): `parts_done ≤ COUNT(parts) ≤ parts_done + 1`, and the
+part requires the previous one to be closed (fixes/F75.diff): `parts_done ≤ COUNT(parts) ≤ parts_done + 1`, and the
 parts collected so far are ascending and disjoint.  It holds for EVERY argument (no grammar needed); without the two
-repairs it breaks exactly at the `|` branch (F30) and at the branch that opens a new part (F51).
+repairs it breaks exactly at the `|` branch (F30) and at the branch that opens a new part (F75).
 -/
 namespace LyModel.Range
 open LyModel
@@ -252,7 +252,7 @@ theorem step_next (fx : RFix) (h30 : fx.f30 = true) (h51 : fx.f51 = true) (t : R
                           have hfirst : (s.done == 0) = false := by simpa using hd0
                           rw [hfirst] at hmm
                           have hx := minmax_asc t true _ base none x len hmm
-                          -- a stand-alone `max` is compared non-strictly (F52): only q.max ≤ x is known
+                          -- a stand-alone `max` is compared non-strictly (F76): only q.max ≤ x is known
                           simpa [hd0, hq] using hx
               · simp at h
 
